@@ -2,6 +2,7 @@
   C07 — Messages are retained and replayed exactly as requested (broker model; any authorizer).
 -/
 import Emitter.Lemmas.Broker
+import Emitter.Lemmas.StoreHistory
 namespace Emitter.C07
 open Emitter Emitter.Trie Emitter.Security Emitter.Broker
 
@@ -55,5 +56,275 @@ theorem will_fires_iff (auth : Auth) (b : B) (c : Conn) :
     ((¬ ∃ g, c.hasConnect = true ∧ c.willFlag = true ∧ (parseChannel c.willTopic).ctype = chStatic ∧
         auth b.banned (parseChannel c.willTopic) permWrite = some g ∧ g.has permExtend = false) ∧
       lastWill auth b c = (b, [])) := Broker.will_fires_iff auth b c
+
+/-! ## C07 at history level: the store refines the log of `Spec/Retained.lean`
+
+The specification (`Emitter/Spec/Retained.lean`) is the property read literally: a LOG of records
+(contract, channel ssid, channel bytes, payload, ttl, order of arrival); `Spec.stepStore` appends
+exactly one record for an accepted publish (static channel, write permission granted, key not
+extendable) that carries the retain flag or a positive ttl option AND whose key has the store
+permission — likewise for the last will published when a connection ends — and nothing for any
+other request; `Spec.replay` is what a subscriber is sent before its SUBACK (the last N matching
+records in order of arrival when the key has the load permission, none otherwise).
+The abstraction function is `absStore` (`Lemmas/StoreHistory.lean`): ban list, configured
+retention, the connections in order as (name, open, announced will, link shortcuts), and the
+store as a log (`absLog`: same messages, same order, `contract :: levels` split into contract and
+levels, numbered from 0). The theorems hold for every history `List Spec.Ev` (accepts, requests,
+ban-list changes) that is well-formed, from every pristine broker (either matcher mode, any ban
+list, retention, and initial store), under every authorizer. -/
+
+/-- one request, any state with distinct connection names: the abstraction commutes with the step -/
+theorem step_refines (auth : Auth) (b : B) (name : String) (r : Req) (hnd : (b.conns.map (·.name)).Nodup) :
+    absStore (step auth b name r).1 = Spec.stepStore auth (absStore b) name r :=
+  Broker.step_abs auth b name r hnd
+
+/-- **"is stored" (⊇) and "nothing else is stored" (⊆), for every history**: the abstraction of
+the model's state after the history IS the specification's state after the same history; in
+particular the store, read as a log, consists of exactly the records `Spec.stepStore` appended, in
+the same order. -/
+theorem store_history_refines (auth : Auth) (b₀ : B) (h0 : Pristine b₀) (evs : List Spec.Ev)
+    (hwf : Spec.wellFormed evs = true) :
+    absStore (run auth b₀ evs) = Spec.runStore auth (Spec.initStore b₀) evs :=
+  Broker.store_history_refines auth b₀ h0 evs hwf
+
+/-- the same, read on the store alone (`StoreWF`: every message already in the initial store is
+filed under a contract — trivially so for an empty store) -/
+theorem store_history_exact (auth : Auth) (b₀ : B) (h0 : Pristine b₀) (hst : StoreWF b₀.store)
+    (evs : List Spec.Ev) (hwf : Spec.wellFormed evs = true) :
+    let L := (Spec.runStore auth (Spec.initStore b₀) evs).log
+    L = absLog (run auth b₀ evs).store ∧
+    (run auth b₀ evs).store = L.map Spec.Rec.toStored ∧
+    L.map (·.seq) = List.range L.length :=
+  Broker.store_history_exact auth b₀ h0 hst evs hwf
+
+/-- **replay, for every history**: an accepted SUBSCRIBE of an open client after any well-formed
+history is answered with presence notifications (JSON, to the watchers of the channel), then — as
+PUBLISH packets to the subscriber, channel and payload unchanged, in order of arrival — exactly
+`Spec.replay` of the specification's log (the last N matching when the key has the load
+permission, none otherwise), and then, after all of them, the SUBACK; neither log nor store change.
+`hwin`: the model has no clock, a history is one second `now`; the statement is about
+subscriptions whose from/until window contains it (always the case without from/until:
+`Spec.inWindow_open`). -/
+theorem replay_history_exact (auth : Auth) (b₀ : B) (h0 : Pristine b₀) (hst : StoreWF b₀.store)
+    (evs : List Spec.Ev) (hwf : Spec.wellFormed evs = true)
+    (now : Int) (name : String) (mid : UInt16) (topic : Bytes) (qos : UInt8) (g : Grant)
+    (hopen : (Spec.runStore auth (Spec.initStore b₀) evs).isOpen name = true)
+    (hacc : Spec.acceptedSub auth (Spec.runStore auth (Spec.initStore b₀) evs).banned topic = some g)
+    (hwin : Spec.inWindow now (parseChannel (fixTopic topic)).window = true) :
+    let S := Spec.runStore auth (Spec.initStore b₀) evs
+    let ch := parseChannel (fixTopic topic)
+    let r := step auth (run auth b₀ evs) name (.subscribe mid topic qos)
+    (∃ notes : Out, (∀ e ∈ notes, ∃ t f, e.2 = Pkt.json t f) ∧
+      r.2 = notes ++ (Spec.replay now S.log g ch.query ch.last ch.window).map
+                        (fun m => (name, Pkt.pub m.channel m.payload))
+                  ++ [(name, .suback mid [qos])]) ∧
+    (g.has permLoad = false → Spec.replay now S.log g ch.query ch.last ch.window = []) ∧
+    Spec.replayFor auth now S topic = Spec.replay now S.log g ch.query ch.last ch.window ∧
+    absStore r.1 = S ∧ r.1.store = (run auth b₀ evs).store :=
+  Broker.replay_history_exact auth b₀ h0 hst evs hwf now name mid topic qos g hopen hacc hwin
+
+/-- **what is not stored is never replayed**: a message published without the retain flag and
+without a positive ttl option, or with a key that has no store permission (`Spec.unstorable`),
+leaves the specification state — hence the log — after the whole history equal to the one after
+the history WITHOUT that publish; every later accepted subscription is replayed exactly what it
+would have been replayed had the message never been published. -/
+theorem unstored_never_replayed (auth : Auth) (b₀ : B) (h0 : Pristine b₀) (hst : StoreWF b₀.store)
+    (h₁ : List Spec.Ev) (n : String) (pq : UInt8) (retain : Bool) (pm : UInt16) (ptopic payload : Bytes)
+    (h₂ : List Spec.Ev)
+    (hwf : Spec.wellFormed (h₁ ++ .req n (.publish pq retain pm ptopic payload) :: h₂) = true)
+    (hno : ∀ i, (Spec.runStore auth (Spec.initStore b₀) h₁).client? n = some i →
+             Spec.unstorable auth (Spec.runStore auth (Spec.initStore b₀) h₁) i retain ptopic) :
+    let evs := h₁ ++ .req n (.publish pq retain pm ptopic payload) :: h₂
+    let S' := Spec.runStore auth (Spec.initStore b₀) (h₁ ++ h₂)
+    Spec.runStore auth (Spec.initStore b₀) evs = S' ∧
+    absStore (run auth b₀ evs) = S' ∧
+    ∀ (now : Int) (name : String) (mid : UInt16) (topic : Bytes) (qos : UInt8) (g : Grant),
+      S'.isOpen name = true → Spec.acceptedSub auth S'.banned topic = some g →
+      Spec.inWindow now (parseChannel (fixTopic topic)).window = true →
+      ∃ notes : Out, (∀ e ∈ notes, ∃ t f, e.2 = Pkt.json t f) ∧
+        (step auth (run auth b₀ evs) name (.subscribe mid topic qos)).2 =
+          notes ++ (Spec.replay now S'.log g (parseChannel (fixTopic topic)).query
+                      (parseChannel (fixTopic topic)).last (parseChannel (fixTopic topic)).window).map
+                        (fun m => (name, Pkt.pub m.channel m.payload))
+                ++ [(name, .suback mid [qos])] :=
+  Broker.unstored_never_replayed auth b₀ h0 hst h₁ n pq retain pm ptopic payload h₂ hwf hno
+
+/-- reading `Spec.replay`: only matching records of the log, in the order of the log, at most N -/
+theorem replay_sublist (now : Int) (L : List Spec.Rec) (g : Grant) (q : Path) (last : Option Int) (w : Int × Int) :
+    (Spec.replay now L g q last w).Sublist (L.filter (Spec.Rec.matches g.contract q)) ∧
+    (Spec.replay now L g q last w).length ≤ Spec.limitOf last := Spec.replay_sublist now L g q last w
+
+/-- `last=0` means none; a `last` not smaller than the number of matching records means all -/
+theorem replay_zero (now : Int) (L : List Spec.Rec) (g : Grant) (q : Path) (w : Int × Int) :
+    Spec.replay now L g q (some 0) w = [] := Spec.replay_zero now L g q w
+theorem replay_all (now : Int) (L : List Spec.Rec) (g : Grant) (q : Path) (last : Option Int) (w : Int × Int)
+    (hl : g.has permLoad = true) (hw : Spec.inWindow now w = true)
+    (hn : (L.filter (Spec.Rec.matches g.contract q)).length ≤ Spec.limitOf last) :
+    Spec.replay now L g q last w = L.filter (Spec.Rec.matches g.contract q) := Spec.replay_all now L g q last w hl hw hn
+
+/-! ### non-vacuity: a concrete history with two publishers and a subscriber
+
+A toy authorizer (contract 7 unless said otherwise): key `k` read/write/store/load/presence; key
+`n` the same WITHOUT store; key `m` the same WITHOUT load; key `j` everything under contract 9;
+any other key (and any banned key) is refused. Channels as bytes: `k/a/` = 107 47 97 47,
+`?ttl=5` = 63 116 116 108 61 53, `?last=2` = 63 108 97 115 116 61 50. -/
+
+def demoAuth : Auth := fun banned ch _ =>
+  if banned.contains ch.key then none
+  else if ch.key == [107] then some ⟨7, 0x3e⟩
+  else if ch.key == [110] then some ⟨7, 0x36⟩
+  else if ch.key == [109] then some ⟨7, 0x2e⟩
+  else if ch.key == [106] then some ⟨9, 0x3e⟩
+  else none
+
+def ka : Bytes := [107, 47, 97, 47]
+def kb : Bytes := [107, 47, 98, 47]
+def na : Bytes := [110, 47, 97, 47]
+def ma : Bytes := [109, 47, 97, 47]
+def ja : Bytes := [106, 47, 97, 47]
+def ttl5 : Bytes := [63, 116, 116, 108, 61, 53]
+def ttl30 : Bytes := [63, 116, 116, 108, 61, 51, 48]
+def last0 : Bytes := [63, 108, 97, 115, 116, 61, 48]
+def last2 : Bytes := [63, 108, 97, 115, 116, 61, 50]
+def last100 : Bytes := [63, 108, 97, 115, 116, 61, 49, 48, 48]
+
+/-- p1, p2, s1 are accepted; p1 connects announcing the will "bye" on `k/a/?ttl=30` (no will-retain),
+p2 connects without a will; p1 publishes "r1" on `k/a/` with the retain flag; p2 publishes "t5"
+on `k/a/?ttl=5` … -/
+def demo₁ : List Spec.Ev :=
+  [.accept "p1" [1], .accept "p2" [2], .accept "s1" [3],
+   .req "p1" (.connect [] true false (ka ++ ttl30) [98, 121, 101]),
+   .req "p2" (.connect [] false false [] []),
+   .req "p1" (.publish 0 true 0 ka [114, 49]),
+   .req "p2" (.publish 0 false 0 (ka ++ ttl5) [116, 53])]
+/-- … p1 publishes "x" on `k/a/` with neither retain nor ttl … -/
+def demoPlain : Spec.Ev := .req "p1" (.publish 0 false 0 ka [120])
+/-- … p2 publishes "ns" WITH the retain flag on `n/a/` — the key `n` has no store permission … -/
+def demoNoStore : Spec.Ev := .req "p2" (.publish 1 true 7 na [110, 115])
+/-- … p2 publishes "rb" with retain on the other channel `k/b/`; p1's connection ends (its will fires) -/
+def demo₂ : List Spec.Ev :=
+  [.req "p2" (.publish 0 true 0 kb [114, 98]),
+   .req "p1" .close]
+def demo : List Spec.Ev := demo₁ ++ demoPlain :: demoNoStore :: demo₂
+
+/-- the hashed channel levels of `a/` and `b/` -/
+def la : Path := [3238259379]
+def lb : Path := [500706888]
+
+def recR1 : Spec.Rec := ⟨7, la, [97, 47], [114, 49], 2592000, 0⟩
+def recT5 : Spec.Rec := ⟨7, la, [97, 47], [116, 53], 5, 1⟩
+def recRb : Spec.Rec := ⟨7, lb, [98, 47], [114, 98], 2592000, 2⟩
+def recBye : Spec.Rec := ⟨7, la, [97, 47], [98, 121, 101], 30, 3⟩
+
+set_option maxRecDepth 8000
+
+example : Spec.wellFormed demo = true := by decide +kernel
+
+/-- the log after the history: the retained message (default retention), the ttl=5 message, the
+retained message on the other channel, the last will with its ttl=30 — and neither the plain
+message nor the one published with the key without store permission -/
+example : (Spec.runStore demoAuth (Spec.initStore {}) demo).log = [recR1, recT5, recRb, recBye] := by decide +kernel
+
+/-- `store_history_refines` on the demo history, and what it says about the model's store -/
+example : absStore (run demoAuth {} demo) = Spec.runStore demoAuth (Spec.initStore {}) demo :=
+  store_history_refines demoAuth {} ⟨rfl, rfl⟩ demo (by decide +kernel)
+example : (run demoAuth {} demo).store =
+    [⟨7 :: la, [97, 47], [114, 49], 2592000⟩, ⟨7 :: la, [97, 47], [116, 53], 5⟩,
+     ⟨7 :: lb, [98, 47], [114, 98], 2592000⟩, ⟨7 :: la, [97, 47], [98, 121, 101], 30⟩] := by
+  rw [(store_history_exact demoAuth {} ⟨rfl, rfl⟩ (by intro m hm; cases hm) demo (by decide +kernel)).2.1]
+  decide +kernel
+
+/-- the clients after the history: p1 ended (its will still on record), p2 and s1 open -/
+example : (Spec.runStore demoAuth (Spec.initStore {}) demo).clients =
+    [("p1", { open_ := false, will := some ⟨false, ka ++ ttl30, [98, 121, 101]⟩ }), ("p2", {}), ("s1", {})] := by
+  decide +kernel
+
+/-- what `Spec.replay` says for s1 (the second `now` is immaterial without from/until): default
+`last` — the most recent one; `last=0` — none; `last=2` — the last two, oldest first; a huge
+`last` — all three on the channel (not the one on `k/b/`); key `m` without load permission — none;
+key `n` (same contract, load) — the same two; key `j` (contract 9) — none -/
+example : Spec.replayFor demoAuth 0 (Spec.runStore demoAuth (Spec.initStore {}) demo) ka = [recBye] := by decide +kernel
+example : Spec.replayFor demoAuth 0 (Spec.runStore demoAuth (Spec.initStore {}) demo) (ka ++ last0) = [] := by decide +kernel
+example : Spec.replayFor demoAuth 0 (Spec.runStore demoAuth (Spec.initStore {}) demo) (ka ++ last2) = [recT5, recBye] := by
+  decide +kernel
+example : Spec.replayFor demoAuth 0 (Spec.runStore demoAuth (Spec.initStore {}) demo) (ka ++ last100) =
+    [recR1, recT5, recBye] := by decide +kernel
+example : Spec.replayFor demoAuth 0 (Spec.runStore demoAuth (Spec.initStore {}) demo) (ma ++ last2) = [] := by decide +kernel
+example : Spec.replayFor demoAuth 0 (Spec.runStore demoAuth (Spec.initStore {}) demo) (na ++ last2) = [recT5, recBye] := by
+  decide +kernel
+example : Spec.replayFor demoAuth 0 (Spec.runStore demoAuth (Spec.initStore {}) demo) (ja ++ last2) = [] := by decide +kernel
+
+/-- `replay_history_exact` applies to s1 subscribing `k/a/?last=2` after the demo history … -/
+example : ∃ notes : Out, (∀ e ∈ notes, ∃ t f, e.2 = Pkt.json t f) ∧
+    (step demoAuth (run demoAuth {} demo) "s1" (.subscribe 1 (ka ++ last2) 0)).2 =
+      notes ++ [("s1", .pub [97, 47] [116, 53]), ("s1", .pub [97, 47] [98, 121, 101])] ++ [("s1", .suback 1 [0])] := by
+  have h := (replay_history_exact demoAuth {} ⟨rfl, rfl⟩ (by intro m hm; cases hm) demo (by decide +kernel) 0 "s1" 1
+    (ka ++ last2) 0 ⟨7, 0x3e⟩ (by decide +kernel) (by decide +kernel) (by decide +kernel)).1
+  have hr : Spec.replay 0 (Spec.runStore demoAuth (Spec.initStore {}) demo).log ⟨7, 0x3e⟩
+      (parseChannel (fixTopic (ka ++ last2))).query (parseChannel (fixTopic (ka ++ last2))).last
+      (parseChannel (fixTopic (ka ++ last2))).window = [recT5, recBye] := by decide +kernel
+  rw [hr] at h
+  exact h
+/-- … and this is all the model sends (nobody watches the channel, so there are no notifications) -/
+example : (step demoAuth (run demoAuth {} demo) "s1" (.subscribe 1 (ka ++ last2) 0)).2 =
+    [("s1", .pub [97, 47] [116, 53]), ("s1", .pub [97, 47] [98, 121, 101]), ("s1", .suback 1 [0])] := by decide +kernel
+/-- default `last`, `last=0`, no load permission: the model's answers -/
+example : (step demoAuth (run demoAuth {} demo) "s1" (.subscribe 2 ka 1)).2 =
+    [("s1", .pub [97, 47] [98, 121, 101]), ("s1", .suback 2 [1])] := by decide +kernel
+example : (step demoAuth (run demoAuth {} demo) "s1" (.subscribe 3 (ka ++ last0) 0)).2 = [("s1", .suback 3 [0])] := by
+  decide +kernel
+example : (step demoAuth (run demoAuth {} demo) "s1" (.subscribe 4 (ma ++ last2) 0)).2 = [("s1", .suback 4 [0])] := by
+  decide +kernel
+/-- without load permission `replay_history_exact` gives the empty replay -/
+example : Spec.replay 0 (Spec.runStore demoAuth (Spec.initStore {}) demo).log ⟨7, 0x2e⟩
+      (parseChannel (fixTopic (ma ++ last2))).query (parseChannel (fixTopic (ma ++ last2))).last
+      (parseChannel (fixTopic (ma ++ last2))).window = [] :=
+  (replay_history_exact demoAuth {} ⟨rfl, rfl⟩ (by intro m hm; cases hm) demo (by decide +kernel) 0 "s1" 4
+    (ma ++ last2) 0 ⟨7, 0x2e⟩ (by decide +kernel) (by decide +kernel) (by decide +kernel)).2.1 (by decide +kernel)
+/-- the ended client p1 is not served (the hypothesis `isOpen` is not vacuous) -/
+example : (Spec.runStore demoAuth (Spec.initStore {}) demo).isOpen "p1" = false := by decide +kernel
+example : (step demoAuth (run demoAuth {} demo) "p1" (.subscribe 1 (ka ++ last2) 0)).2 = [] := by decide +kernel
+
+/-- `unstored_never_replayed` applies to the plain publish "x" (no retain, no ttl option) … -/
+example : Spec.runStore demoAuth (Spec.initStore {}) demo =
+    Spec.runStore demoAuth (Spec.initStore {}) (demo₁ ++ demoNoStore :: demo₂) :=
+  (unstored_never_replayed demoAuth {} ⟨rfl, rfl⟩ (by intro m hm; cases hm) demo₁ "p1" 0 false 0 ka [120]
+    (demoNoStore :: demo₂) (by decide +kernel)
+    (by intro i hi
+        have h0 : (Spec.runStore demoAuth (Spec.initStore {}) demo₁).client? "p1" =
+            some { will := some ⟨false, ka ++ ttl30, [98, 121, 101]⟩ } := by decide +kernel
+        rw [h0] at hi; cases hi
+        exact Or.inl ⟨rfl, fun t ht => by
+          have h1 : (parseChannel (Spec.Client.resolve { will := some ⟨false, ka ++ ttl30, [98, 121, 101]⟩ } ka)).ttl = none := by
+            decide +kernel
+          rw [h1] at ht; cases ht⟩)).1
+/-- … and to the publish with the retain flag by the key `n` that has no store permission -/
+example : Spec.runStore demoAuth (Spec.initStore {}) ((demo₁ ++ [demoPlain]) ++ demoNoStore :: demo₂) =
+    Spec.runStore demoAuth (Spec.initStore {}) ((demo₁ ++ [demoPlain]) ++ demo₂) :=
+  (unstored_never_replayed demoAuth {} ⟨rfl, rfl⟩ (by intro m hm; cases hm) (demo₁ ++ [demoPlain]) "p2" 1 true 7 na
+    [110, 115] demo₂ (by decide +kernel)
+    (by intro i hi
+        have h0 : (Spec.runStore demoAuth (Spec.initStore {}) (demo₁ ++ [demoPlain])).client? "p2" = some {} := by
+          decide +kernel
+        rw [h0] at hi; cases hi
+        exact Or.inr (fun g hg => by
+          have h1 : demoAuth (Spec.runStore demoAuth (Spec.initStore {}) (demo₁ ++ [demoPlain])).banned
+              (parseChannel (Spec.Client.resolve {} na)) permWrite = some ⟨7, 0x36⟩ := by decide +kernel
+          rw [h1] at hg; cases hg; decide +kernel))).1
+/-- … while the same message published with the storing key IS replayed (the distinction is real) -/
+example : Spec.replayFor demoAuth 0
+    (Spec.runStore demoAuth (Spec.initStore {}) (demo ++ [.req "p2" (.publish 1 true 7 ka [110, 115])])) ka =
+    [⟨7, la, [97, 47], [110, 115], 2592000, 4⟩] := by decide +kernel
+
+/-- MODEL LIMIT (time): a window that excludes the present — `k/a/?until=1600000000` seen from
+`now = 1700000000` — is outside `replay_history_exact` (`hwin` fails): the specification replays
+nothing, the clock-less model still replays the last message. -/
+example : Spec.inWindow 1700000000 (parseChannel (fixTopic (ka ++ [63, 117, 110, 116, 105, 108, 61, 49, 54, 48, 48, 48, 48, 48, 48, 48, 48]))).window = false := by
+  decide +kernel
+example : Spec.replayFor demoAuth 1700000000 (Spec.runStore demoAuth (Spec.initStore {}) demo)
+    (ka ++ [63, 117, 110, 116, 105, 108, 61, 49, 54, 48, 48, 48, 48, 48, 48, 48, 48]) = [] := by decide +kernel
+example : (step demoAuth (run demoAuth {} demo) "s1"
+    (.subscribe 1 (ka ++ [63, 117, 110, 116, 105, 108, 61, 49, 54, 48, 48, 48, 48, 48, 48, 48, 48]) 0)).2 =
+    [("s1", .pub [97, 47] [98, 121, 101]), ("s1", .suback 1 [0])] := by decide +kernel
 
 end Emitter.C07
